@@ -12,7 +12,7 @@ from ..desc import NONE, mkstate, tup
 from ..pool import pmap
 
 
-def judge(s, area, name):
+def judge(s, area, name, inplace=True):
     base = O.observe(name, area, mkstate(s))
     if isinstance(base[0], str):
         return 1, None  # exceptions are C01/C05 business; nothing to compare
@@ -27,7 +27,26 @@ def judge(s, area, name):
                     if R.shape(o[0]) != R.shape(base[0]) or o[0][i][j] != c]
             return k + 1, (f'{name} area {area}: observation changes after rotating the world by {k} clockwise quarter '
                            f'turn(s) (agent {(s[1], s[2], s[3])} -> {(r[1], r[2], r[3])}); differing view cells {diff[:4]}')
-    return 4, None
+    if not inplace:
+        return 4, None
+    # the same state OBJECT, moved/turned in place to the rotated pose's heading, must be observed like a fresh state
+    from gym_gridverse.geometry import Position as _P
+    from ..desc import ORI as _ORI
+
+    st = mkstate(s)
+    O.observe(name, area, st)
+    for h2 in ('R', 'B', 'L', 'F'):
+        st.agent.orientation = _ORI[h2]
+        s2 = (s[0], s[1], s[2], h2, s[4])
+        if O.observe(name, area, st) != O.observe(name, area, mkstate(s2)):
+            return 5, (f'{name} area {area}: after turning the same state object in place to heading {h2} its observation differs '
+                       f'from that of a freshly built equal state')
+    H, W = R.shape(s[0])
+    st.agent.position = _P((s[1] + 1) % H, (s[2] + 1) % W)
+    s3 = (s[0], (s[1] + 1) % H, (s[2] + 1) % W, 'F', s[4])
+    if O.observe(name, area, st) != O.observe(name, area, mkstate(s3)):
+        return 6, f'{name} area {area}: after moving the same state object in place its observation differs from a fresh equal state'
+    return 6, None
 
 
 def _work(job):
@@ -42,7 +61,7 @@ def _work(job):
             for sub, s in mine:
                 if sub and name == 'fully_transparent':
                     continue
-                k, m = judge(s, area, name)
+                k, m = judge(s, area, name, inplace=(not sub and (s[1] + s[2]) % 2 == 0))
                 n += k
                 cases += 1
                 if m and len(fails) < 3:
